@@ -91,10 +91,13 @@ def run(ctx):
     s1 = ctx.harness(BIN, "drive", "b1", extra={"threads": min(ctx.jobs, 8)}, timeout=2400 if ctx.thorough else 900)
     b1files = sorted(glob.glob(os.path.join(s1["_out"], "*.ndjson")))
     b2files = sorted(glob.glob(os.path.join(s2["_out"], "*.ndjson")))
-    ctx.validate(TRACE, b1files + b2files, what="compressor round trip / PA-Zip match stream", max_reject_per_file=60,
-                 timeout=900 if ctx.thorough else 300)
+    # the files that need the two-pass treatment (several TLC starts each) go first; C1-only JIT: the runs are short
+    heavy = ("rans", "hybrid", "adaptive", "realtime", "simdlz77", "pazip", "fse", "b2")
+    files = sorted(b1files + b2files, key=lambda f: (0 if any(h in os.path.basename(f) for h in heavy) else 1, -os.path.getsize(f)))
+    ctx.validate(TRACE, files, what="compressor round trip / PA-Zip match stream", max_reject_per_file=60,
+                 timeout=900 if ctx.thorough else 300, jvm="-Xmx2g -XX:TieredStopAtLevel=1")
     # --- binding self-tests: corrupted results must be rejected
-    clean = [f for f in b1files if os.path.basename(f).startswith("c02-factory_zstd3")] or b1files
+    clean = [f for f in b1files if os.path.basename(f).startswith("c02-factory_none_and")] or b1files
     ctx.selftest_corrupt(TRACE, clean[0], corrupt_digest, "digest of a decompressed payload changed by one")
     ctx.selftest_corrupt(TRACE, clean[0], corrupt_length, "length of a decompressed payload changed by one")
     ctx.selftest_corrupt(TRACE, clean[0], corrupt_refusal, "successful decompression of a current frame turned into a refusal")
@@ -120,8 +123,8 @@ def run(ctx):
     for name, d in subs.items():
         if d.get("decompress_ok", 0) + d.get("decompress_refused", 0) == 0:
             vacuous.append(name)
-        # distinct non-trivial cases: (subject, payload) pairs for which a frame existed and was decompressed
-        nontrivial += d.get("compress_ok", 0)
+        # distinct non-trivial cases: (subject variant, call variant, algorithm logged, payload class) for which a frame existed
+        nontrivial += d.get("distinct", 0)
         for k, v in d.get("algos", {}).items():
             algo_cov[k] = algo_cov.get(k, 0) + v
         for i, v in enumerate(d.get("kinds", [0] * 8)):
@@ -140,8 +143,9 @@ def run(ctx):
     cov["algorithm_chosen"] = algo_cov
     cov["pazip_match_kinds_emitted_end_to_end"] = dict(zip(["literal", "global", "rle", "near_short", "far1_short", "far2_short", "far2_long", "far3_long"], kinds))
     cov["exhaustive"] = False
-    cov["rule"] = ("B1: distinct = (subject, payload) pairs whose compress produced a frame that was then decompressed and judged by TLC "
-                   "(subject = compressor family x variant/preset x training corpus; payload families: empty, 1-2 bytes, zero runs 2..64 KiB, "
+    cov["rule"] = ("B1: distinct = (subject variant, call variant, algorithm logged at the call, payload class) tuples whose compress produced a frame "
+                   "that was then decompressed and judged by TLC (subject variant = compressor family x variant/preset x training "
+                   "corpus; call variant = trait / inherent / deadline_expired / batch / phase before-after train-switch; payload families: empty, 1-2 bytes, zero runs 2..64 KiB, "
                    "single-symbol runs, periodic with period 1..40, block-gap-block repeats with gaps 100..70000, text, random 2 B..64 KiB, "
                    "256-symbol alphabets, skewed alphabets, phrase x 64 KiB, slices of the training corpus; thorough: up to 4 MiB). "
                    "B2: + one execution per TLC-generated match sequence (every Match kind at min / max / +-1 of every operand range, all "
@@ -178,7 +182,7 @@ def replay(ctx, path):
     else:
         s = ctx.harness(BIN, "drive", "rp", subject=subj, extra={"threads": 2})
     files = sorted(glob.glob(os.path.join(s["_out"], "*.ndjson")))
-    ctx.validate(TRACE, files, what="replay of " + os.path.basename(path), max_reject_per_file=60)
+    ctx.validate(TRACE, files, what="replay of " + os.path.basename(path), max_reject_per_file=60, jvm="-Xmx2g -XX:TieredStopAtLevel=1")
     ctx.cov["evaluations"] = s.get("events", 0)
     ctx.cov["distinct_nontrivial"] = max(2, s.get("runs", 0))
     ctx.cov["rule"] = "replay of one subject"
